@@ -1,6 +1,6 @@
 (* C14 -- State is fresh.  Statements only. *)
 From Coq Require Import ZArith List Bool.
-From RV Require Import GenConsts M_Store P_Store.
+From RV Require Import GenConsts M_Store P_Store M_StoreDeferred P_StoreDeferred.
 Import ListNotations.
 Open Scope Z_scope.
 
@@ -70,3 +70,19 @@ Theorem C14_delete_only_that_message : forall st m k m', sget st k = Some m' -> 
 Proof. exact sdel_keeps_others. Qed.
 Theorem C14_delete_invents_nothing : forall st m k, sget st k = None -> sget (sdel st m) k = None.
 Proof. exact sdel_absent. Qed.
+
+(* DEFERRED deletion (a read that finds the held message expired only schedules its removal; packets that arrive before the loop turns are
+   stored first): for ANY interleaving of arrivals, reads and loop turns, what an entity holds for a code is the newest arrival for that code ... *)
+Theorem C14_held_is_latest : forall evs c m, dget (s_store (drun del_is evs)) c = Some m -> latest (arrivals evs) c = Some m.
+Proof. exact held_is_latest. Qed.
+(* ... and the newest arrival IS held unless a read found that very message expired: the deferred deletion of an older message never takes it *)
+Theorem C14_latest_never_lost : forall evs c m, latest (arrivals evs) c = Some m ->
+  ~ In (d_id m) (map d_id (s_sched (drun del_is evs))) -> dget (s_store (drun del_is evs)) c = Some m.
+Proof. exact latest_never_lost. Qed.
+(* the rule the code had before 71c64db (remove any message EQUAL in content) loses it: the same reading arrives again before the loop turns *)
+Theorem C14_equal_content_rule_refuted :
+  latest (arrivals lost_evs) 0x1F09 = Some (mkD 2 0x1F09 5) /\
+  ~ In 2 (map d_id (s_sched (drun del_eq lost_evs))) /\
+  dget (s_store (drun del_eq lost_evs)) 0x1F09 = None /\
+  dget (s_store (drun del_is lost_evs)) 0x1F09 = Some (mkD 2 0x1F09 5).
+Proof. exact equal_content_rule_loses_latest. Qed.
